@@ -13,6 +13,8 @@ ASSUMPTIONS = [
     "calls stay inside the Storage contract (remove_tombstones only on tombstoned or absent ids; no duplicate ids in one bulk call)",
     "keyspace list: must contain every keyspace holding an entry and nothing outside the names used; backends may differ in between",
     "quick tier: MemStore on every edge, the SQLite/LMDB backends on every 8th edge (offset by VERIF_SEED); thorough: every edge on all four",
+    "random part: seeded sequences of 300-600 calls per backend over 3 keyspaces with arbitrary u64 ids (85 % from a pool of 10 incl. 0, 2^63-1, 2^63, 2^64-1), "
+    "random stamps and payloads up to 40 KB, SQLite file / LMDB reopened three times per run; validated by Trace_Storage.tla (ids, stamps, digests as strings)",
     "scratch databases live under /dev/shm (removed at the end)",
 ]
 CONSTS = dict(Keyspaces={1, 2}, Ids={1, 2}, Stamps={1, 2}, Payloads={0, 1})
@@ -42,6 +44,17 @@ def run(ctx):
         if b["evaluations"] == 0:
             raise vlib.ToolError("vacuous: backend %s replayed nothing" % b["backend"])
         ctx.log("%-14s %7d edges replayed, %d reopens, %d violations" % (b["backend"], b["evaluations"], b["reopens"], b["violation_count"]))
+    # (V) random call sequences with arbitrary u64 ids / stamps / payloads, validated by Trace_Storage.tla
+    trace = ctx.path("random.ndjson")
+    runs, length = (6, 300) if ctx.tier == "quick" else (60, 600)
+    rout = vlib.run_harness(ctx, [binary, "record-storage", "--seed", str(ctx.seed), "--runs", str(runs), "--len", str(length),
+                                  "--out", trace, "--dir", scratch + "-random"], timeout=3000)
+    rst = json.loads(rout.strip().splitlines()[-1])
+    tv = vlib.validate_trace(ctx, "Trace_Storage", {}, trace, "trace_random", timeout=3000)
+    ctx.log("random sequences: %d runs, %d events: trace %s" % (rst["runs"], rst["events"], "accepted" if tv["accepted"] else "REJECTED"))
+    if not tv["accepted"]:
+        ctx.violations.append({"engine": "h-ec record-storage + Trace_Storage", "why": ["a recorded storage call disagrees with the reference model"],
+                               "rejected": tv["rejected"], "record_cmd": "h-ec record-storage --seed %d --runs %d --len %d" % (ctx.seed, runs, length)})
     seen = set()
     for v in rep["violations"]:
         key = (v["backend"], v["op"]["kind"], v["why"][0][:50])
@@ -49,7 +62,8 @@ def run(ctx):
             continue
         seen.add(key)
         ctx.violations.append(dict(engine="h-ec replay-storage", **v))
-    cov = {"states": mc["distinct"], "transitions": mc["generated"], "traces_validated_against_impl": rep["evaluations"],
+    cov = {"random_runs": rst["runs"], "random_events": rst["events"], "random_trace_accepted": tv["accepted"],
+           "states": mc["distinct"], "transitions": mc["generated"], "traces_validated_against_impl": rep["evaluations"] + rst["runs"],
            "samples": rep["samples"][:5], "exhaustive": stride == 1, "edges": rep["edges"], "backends": rep["backends"],
            "persistent_backend_stride": stride, "checker_cmd": mc["cmd"]}
     return vlib.finish(ctx, "model_checking", cov, ASSUMPTIONS)
